@@ -14,7 +14,39 @@ total = [0]
 handed = [None]
 
 
+class Flight(object):
+    """a lock used directly AND through a Condition built on it (object attributes, made at import)"""
+
+    def __init__(self):
+        self._mutex = threading.Lock()
+        self._changed = threading.Condition(self._mutex)
+        self.value = None
+        self.state = 'idle'
+
+    def run(self, job):
+        mine = False
+        with self._mutex:
+            if self.state == 'idle':
+                self.state = 'running'
+                mine = True
+            else:
+                while self.state == 'running':
+                    self._changed.wait()
+                return self.value
+        v = job()
+        with self._mutex:
+            self.value = v
+            self.state = 'landed'
+            self._changed.notify_all()
+        return v
+
+
+flight = Flight()
+
+
 def reset():
+    flight.value = None
+    flight.state = 'idle'
     del queue[:]
     inside[0] = inside[1] = 0
     total[0] = 0
